@@ -125,6 +125,12 @@ func Main(t *testing.T) {
 		// The attempt runs on the simulated clock of the run that asks (-elapsed = how far that run's clock has come):
 		// what a migration does with a saved nonce depends on its age.
 		mb, _ := strconv.Atoi(*fTier)
+		go func() {
+			// (real time, outside the bubble: an Open that never returns must not hang the run that asked)
+			time.Sleep(90 * time.Second)
+			fmt.Println("OPEN-ERR: Open has not returned after 90 seconds of real time (it is still running)")
+			os.Exit(0)
+		}()
 		synctest.Test(t, func(t *testing.T) {
 			time.Sleep(*fElapsed)
 			st, err := badgerstore.Open(seams.BadgerOptions(*fTrace, mb))
